@@ -241,9 +241,15 @@ func canonIssues(is []oissue) string {
 
 type expIssue struct {
 	step   int
-	coords string
+	coords bootengine.StepIssueCoords // compared as a value (type and fields), not as text
 	what   string
 }
+
+func coordsAction(j int) bootengine.StepIssueCoords {
+	return bootengine.StepIssueCoordsAction{ActionIndex: uint(j)}
+}
+
+var coordsActor bootengine.StepIssueCoords = bootengine.StepIssueCoordsActor{}
 
 // blame: how a failure observed in stage k is to be reported
 type blame struct {
@@ -297,9 +303,9 @@ func (f *hflow) oracle(c *gal.Ctx, idx int, res *runResult, stages []stageObs, s
 			case aSetActor:
 				cur = a.actor
 			case aFail:
-				expIssues = append(expIssues, expIssue{i, fmt.Sprintf("action#%d", j), fmt.Sprintf("fail@%d.%d", i, j)})
+				expIssues = append(expIssues, expIssue{i, coordsAction(j), fmt.Sprintf("fail@%d.%d", i, j)})
 			case aPanic:
-				expIssues = append(expIssues, expIssue{i, fmt.Sprintf("action#%d", j), "panic"})
+				expIssues = append(expIssues, expIssue{i, coordsAction(j), "panic"})
 			case aTPM:
 				in := true
 				for _, x := range a.tpm {
@@ -311,7 +317,7 @@ func (f *hflow) oracle(c *gal.Ctx, idx int, res *runResult, stages []stageObs, s
 					stepBits.add([]href{{art: f.img, mapper: biosimage.PhysMemMapper{}, ranges: a.tpm}})
 				} else {
 					// reading outside the image panics inside the action: nothing is measured
-					expIssues = append(expIssues, expIssue{i, fmt.Sprintf("action#%d", j), "panic"})
+					expIssues = append(expIssues, expIssue{i, coordsAction(j), "panic"})
 				}
 			}
 		}
@@ -319,9 +325,9 @@ func (f *hflow) oracle(c *gal.Ctx, idx int, res *runResult, stages []stageObs, s
 			act := f.actors[cur]
 			switch act.mode {
 			case cmErr:
-				expIssues = append(expIssues, expIssue{i, "actor", "code-source-error"})
+				expIssues = append(expIssues, expIssue{i, coordsActor, "code-source-error"})
 			case cmPanic:
-				expIssues = append(expIssues, expIssue{i, "actor", "panic"})
+				expIssues = append(expIssues, expIssue{i, coordsActor, "panic"})
 			}
 			if prev < 0 || f.actors[prev].id != act.id {
 				prev = cur
@@ -439,7 +445,7 @@ func (f *hflow) oracleVNI(c *gal.Ctx, idx int, res *runResult, vni validator.Iss
 	for k := 0; okVNI && k < len(vni); k++ {
 		e := expIssues[k]
 		got := vni[k]
-		if int(got.StepIdx) != e.step || fmt.Sprint(got.Coords) != e.coords {
+		if int(got.StepIdx) != e.step || got.Coords != e.coords {
 			okVNI = false
 			break
 		}
@@ -588,7 +594,7 @@ func (f *hflow) oracleVAP(c *gal.Ctx, idx int, rank map[string]int, st stageObs,
 	got := map[int]oissue{}
 	for _, o := range oVAP {
 		if o.kind != 4 {
-			fail("", fmt.Sprintf("unexpected issue kind %d at step %d", o.kind, o.step))
+			fail("", fmt.Sprintf("unexpected issue at step %d (class %d: 1 = carries the error of a Resolve call, negative = no error / wrong Coords); only 'not protected' issues with actor Coords can occur on a well-formed log", o.step, o.kind))
 			return
 		}
 		if _, dup := got[o.step]; dup {
@@ -619,11 +625,7 @@ func (f *hflow) oracleVAP(c *gal.Ctx, idx int, rank map[string]int, st stageObs,
 			fail(knownFor(step, false), fmt.Sprintf("step %d hands control to an actor whose code bytes %s no earlier step measured, but no issue is reported", step, u))
 			return
 		}
-		gb, okb := orefBytes(o.nm, f.maxSize())
-		if !okb || !sameBytes(gb, f.byRank(u, rank)) {
-			fail(knownFor(step, false), fmt.Sprintf("step %d: the reported non-measured ranges %v do not denote exactly the unprotected bytes %s", step, o.nm, u))
-			return
-		}
+		_ = o // which ranges the validator names is in the message text only: not judged
 	}
 	for _, step := range sortedKeys(nSteps, func(i int) bool { _, ok := got[i]; return ok }) {
 		if _, ok := expUnprot[step]; !ok {
@@ -667,9 +669,9 @@ func (f *hflow) oracleVFC(c *gal.Ctx, idx int, st stageObs, bl blame, allMeasure
 		return
 	}
 	if f.img == nil || !f.uefi {
-		// no parsable image: exactly one "unable to get UEFI files" at the last step
+		// no parsable image: exactly one issue that carries the data source's error, at the last step
 		if len(oVFC) != 1 || oVFC[0].kind != 5 || oVFC[0].step != last {
-			fail("", fmt.Sprintf("expected one 'unable to get UEFI files' issue at step %d, got %v", last, oVFC))
+			fail("", fmt.Sprintf("expected exactly one issue carrying the error of the file data source at step %d, got %v", last, oVFC))
 			return
 		}
 		c.OracleOK()
